@@ -1,13 +1,15 @@
 from common import T_COMMON
 
 CFG = dict(
-    modules=["PolyVerif.Props.C02", "PolyVerif.Props.C02Delaunay"],
+    modules=["PolyVerif.Props.C02", "PolyVerif.Props.C02Delaunay", "PolyVerif.Props.C02More"],
     theorems=["prim_wf", "uvSphere_wf", "uvSphereUnwelded_wf", "hemisphere_wf", "circle_wf", "cone_wf", "cylinder_wf", "cylinder_nocaps_wf",
               "extrusions_total", "extrudeShape_wf", "screw_wf", "extrudeLine_wf", "extrudePolygon_wf", "marchBlock_wf", "march_wf", "quad_wf", "cube_wf", "cubeUnwelded_wf",
               "unweld_wf", "removeUnreferenced_wf", "toPointCloud_wf", "flip_wf", "setIndices_wf",
               "append_wf", "setAttr_wf", "setAttr_delete_wf", "modifyAttr_wf", "mapAttr_wf", "setNormals_wf", "filterAttr_wf",
               "filterAttr_rejects_non_point", "crop_wf", "removeNullFaces_wf",
-              "splitOnMaterials_wf", "weld_wf", "repeatMesh_wf", "clearAttrs_wf", "setData_wf", "step_wf", "ops_closed", "ops_closed_transforms", "march_blocks_wf", "bowyerWatson_wf", "bowyerWatson_entry_wf", "constrainedBowyerWatson_wf"],
+              "splitOnMaterials_wf", "weld_wf", "repeatMesh_wf", "clearAttrs_wf", "setData_wf", "step_wf", "ops_closed", "ops_closed_transforms", "march_blocks_wf", "bowyerWatson_wf", "bowyerWatson_entry_wf", "constrainedBowyerWatson_wf",
+              # round 2 (Props/C02More.lean, models Model/MeshMore.lean)
+              "scaleAlongNormal_wf", "scale2D_wf", "normalize2D_wf", "copyAttr_wf", "copyAttr_missing_wf"],
     # one-line instances / records: kernel-checked with the module, not counted as property obligations
     helper_theorems=["translate_wf", "scaleAbout_wf", "scaleMesh_wf", "rotate_wf", "applyTRS_wf", "center_wf", "normalize_wf", "smoothNormals_wf", "flatNormals_wf", "laplacian_wf", "filterAttrOld_breaks_triangles"],
     streams=[dict(name="c02", n=dict(quick=400, thorough=12000))],
@@ -22,8 +24,10 @@ CFG = dict(
              "caller-checked builders whose result the caller completes: outside the theorem; exercised through the oracle c02.holds.wf_raw_setter = (guard -> WF), guard-violating "
              "calls are counted in the notes only (observed: ClearAttributeData on an indexed mesh and wrong-length SetFloatNData/CopyFloatNAttribute return non-WF meshes)",
              "operations without a Lean model, covered ONLY by the WF oracle on every mesh they return (called on generated WF meshes of all topologies): SliceByPlaneWithAttribute / "
-             "SliceByPlaneTransformer, ColorGradingLut, VertexColorSpace, SmoothNormalsImplicitWeld (finite positions only), LaplacianSmoothAlongAxis, ScaleAttributeAlongNormal "
-             "(+Transformer), ScaleAttribute2D, NormalizeAttribute2D",
+             "SliceByPlaneTransformer, ColorGradingLut, VertexColorSpace, SmoothNormalsImplicitWeld (finite positions only), LaplacianSmoothAlongAxis. (Round 2: ScaleAttributeAlongNormal "
+             "(+Transformer), ScaleAttribute2D (+Transformer), NormalizeAttribute2D (+Transformer) and CopyFloatNAttribute now have models (Model/MeshMore.lean), WF theorems "
+             "(Props/C02More.lean) and exact shape correspondence c02.op.{scalealongnormal,scale2d,normalize2d,copyattr}; CopyFloatNAttribute under the guards of copyAttr_wf / "
+             "copyAttr_missing_wf, guard-violating calls are compared by shape only)",
              "triangulation.BowyerWatson: bowyerWatson_wf is about the C20 model Model/Delaunay.lean (any selection / order of the final triangulation's triangles; it reflects the final filter + n vertices, not the insertion algorithm), tied to Go by the C20 correspondence and here by the WF oracle; "
              "triangulation.ConstrainedBowyerWatson: constrainedBowyerWatson_wf is about an abstract model of the clipping events (Model/ConstrainedBW.lean; geometry is a parameter), "
              "tied by the structural oracle cbw_shape and the WF oracle only; WF oracle only (no theorem): node wrappers (Process) of primitives / meshops / repeat / extrude without input, "
